@@ -25,6 +25,9 @@
 (*              (set-up of a pre-existing allowance; always authorized)     *)
 (*   allow / disallow : operator oper (authorizing iff oauth) edits the     *)
 (*              allow-list entry of tok                                     *)
+(*   sweep    : (beyond C19: monitors X06_..) operator oper (authorizing iff *)
+(*              oauth) has the forwarder's whole balance of tok paid out to *)
+(*              the account named in `rel`; ev.ret = amount reported        *)
 (*  ev.obs = [bal  : token -> account -> Int,                               *)
 (*            al   : token -> owner -> [amt, until]  allowance to fw,       *)
 (*            tg   : target -> [n, fn, x, who]  number of calls received    *)
@@ -63,6 +66,9 @@ GInit(obs, flavour, strategy, exec, mgr) ==
 \* who receives the fee: the permissioned example collects into the contract itself
 Recip(g, o) == IF g.flavour = "permissioned" THEN FW ELSE o.rel
 
+\* sweep: everything the forwarder holds of the token goes to the named recipient
+SweptBal(g, o) == LET b == g.bal[o.tok][FW] IN [g.bal EXCEPT ![o.tok] = Add(Add(@, FW, -b), o.rel, b)]
+
 ExpBal(g, o) == [g.bal EXCEPT ![o.tok] = Add(Add(@, o.user, -o.fee), Recip(g, o), o.fee)]
 
 \* the user's allowance to the forwarder after a successful forward, as the library documents
@@ -93,6 +99,7 @@ GNext0(g, ev) ==
   IF ev.res # "ok" THEN g1 ELSE
   CASE o.op = "forward" -> [g1 EXCEPT !.bal = ExpBal(g, o), !.al = ExpAl(g, o, now), !.tg = ExpTg(g, o)]
     [] o.op = "approve" -> [g1 EXCEPT !.al[o.tok][o.user] = Nz([amt |-> o.max, until |-> now + o.de])]
+    [] o.op = "sweep" -> [g1 EXCEPT !.bal = SweptBal(g, o)]
     [] o.op \in {"allow", "disallow"} -> [g1 EXCEPT !.list = ExpList(g, ev)]
     [] OTHER -> g1
 GNext(g, ev) ==
@@ -116,9 +123,13 @@ ListEnumOk(L, ls, toks) ==
                      ELSE ls.idx[t] = NoIdx
 
 (* monitors -------------------------------------------------------------------*)
+\* Beyond the listed properties (X06): fees collected by the forwarder leave it only through a sweep - by an authorized
+\* manager where managers exist, in full, to the named recipient, reported exactly; a refused sweep moves nothing; and an
+\* authorized manager can always sweep a positive balance (fees do not get stuck).
+XMonitors == {"X06_sweep_gate", "X06_sweep_effect", "X06_sweep_fail", "X06_sweep_works"}
 Monitors == {"C19_auth", "C19_charge", "C19_target", "C19_atomic", "C19_allowance",
-             "C19_allowlist", "C19_allowed_getter", "C19_list_enum", "C19_list_edit"}
-PropOf(m) == "C19"
+             "C19_allowlist", "C19_allowed_getter", "C19_list_enum", "C19_list_edit"} \cup XMonitors
+PropOf(m) == IF m \in XMonitors THEN "X06" ELSE "C19"
 
 Ante(m, g, ev) ==
   LET o == ev.op  ok == ev.res = "ok"  fwd == ev.op.op = "forward" IN
@@ -131,6 +142,11 @@ Ante(m, g, ev) ==
     [] m = "C19_allowed_getter" -> TRUE
     [] m = "C19_list_enum"      -> TRUE
     [] m = "C19_list_edit"      -> o.op \in {"allow", "disallow"} /\ ok
+    [] m = "X06_sweep_gate"     -> o.op = "sweep" /\ ok
+    [] m = "X06_sweep_effect"   -> o.op = "sweep" /\ ok
+    [] m = "X06_sweep_fail"     -> o.op = "sweep" /\ ~ok
+    [] m = "X06_sweep_works"    -> /\ o.op = "sweep" /\ g.flavour \in {"permissioned", "lib"} /\ g.bal[o.tok][FW] > 0
+                                   /\ (g.flavour = "permissioned" => (o.oper \in g.mgr /\ o.oauth))
 
 Cons(m, g, ev) ==
   LET o == ev.op  ok == ev.res = "ok"  obs == ev.obs  now == ev.now
@@ -163,6 +179,11 @@ Cons(m, g, ev) ==
          /\ obs.list.enabled = (L # {})
     [] m = "C19_list_enum" -> ListEnumOk(L, obs.list, g.toks)
     \* duplicates and removals of absent tokens are refused; edits need the manager's authorization
+    [] m = "X06_sweep_gate"   -> g.flavour = "permissioned" => (o.oper \in g.mgr /\ o.oauth)
+    [] m = "X06_sweep_effect" -> /\ g.bal[o.tok][FW] > 0 /\ ev.ret = g.bal[o.tok][FW]
+                                 /\ obs.bal = SweptBal(g, o) /\ obs.tg = g.tg
+    [] m = "X06_sweep_fail"   -> obs.bal = g.bal /\ obs.tg = g.tg
+    [] m = "X06_sweep_works"  -> ok
     [] m = "C19_list_edit" ->
          /\ o.op = "allow" => o.tok \notin g.list
          /\ o.op = "disallow" => o.tok \in g.list
